@@ -93,6 +93,8 @@ static bool vf_md5(const void *data, size_t nbytes, void *retbuf) {
 /* the image assertions belong to C06 (contents, accounting) in the C06 queries and to C07 (well-formedness) in the C07 queries */
 #ifdef VF_C07
 #define FP "C07.wf."
+#elif defined(VF_C12)
+#define FP "C12.hasharr.stored." /* C12: stored values are returned byte-for-byte with their exact length */
 #else
 #define FP "C06."
 #endif
